@@ -182,7 +182,9 @@ def fault_surely_happened(sc, obs):
     if k == 'none':
         return False
     if k == 'cmd_error':
-        return obs['mutating_cmds'] > fl['k']
+        # the hook answers only non-chunk commands with a command-level Error (a chunk fails inside its handler:
+        # write_fail); in these scenarios the non-chunk mutating commands are the 2 leading ones
+        return obs['mutating_cmds'] > fl['k'] and fl['k'] < 2
     if k == 'write_fail':
         return obs['writes'] > fl['k']
     if k == 'get_error':
